@@ -41,13 +41,26 @@ SCENARIOS = [
     {".gitignore": "\\#hash.md\n\\!bang.md\nnotes\\[1\\].md\nfile\\?.md\n", "#hash.md": "h", "!bang.md": "b", "notes[1].md": "n", "notes1.md": "n1",
      "file?.md": "q", "filex.md": "x", "sub/#hash.md": "sh"},
     # lines that are no valid pattern (a lone '!', a trailing backslash) are skipped, the other rules apply
-    {".gitignore": "!\nb.md\na.md\\\n", "a.md": "a", "b.md": "b", "sub/.gitignore": "\\\n!\n", "sub/c.md": "c", "sub/b.md": "b2"},
+    {".gitignore": "!\nb.md\na.md\\\n[z-a].md\n", "a.md": "a", "b.md": "b", "sub/.gitignore": "\\\n!\n[9-0]x.md\n", "sub/c.md": "c", "sub/b.md": "b2"},
+    # plain last-match-wins between a wildcard negation and a directory rule; the keep-only-markdown idiom
+    {".gitignore": "!*\ngen\nout/\n", "gen/a.md": "a", "out/o.md": "o", "b.md": "b", "sub/gen/c.md": "c"},
+    {".gitignore": "*\n!*/\n!*.md\n", "pub/r.md": "r", "pub/x.txt": "x", "a.md": "a", "pub/deep/d.md": "d"},
+    # a sub-directory that merely holds an entry named .git (an aborted clone: empty directory; a stale pointer file) is
+    # still governed by the outer .gitignore files
+    {".gitignore": "*.gen.md\nbuild-out/\n/third/skip.md\n", "third/.git/": None, "third/skip.md": "s", "third/x.gen.md": "g", "third/k.md": "k",
+     "third/build-out/b.md": "b", "plain/x.gen.md": "g2", "plain/k.md": "k2"},
+    # names are compared as written (no Unicode normalisation): decomposed name + decomposed rule is ignored, decomposed name +
+    # composed rule is not
+    {".gitignore": "cafe\u0301.md\n\u00e9t\u00e9.md\n", "cafe\u0301.md": "d", "e\u0301te\u0301.md": "x", "k.md": "k"},
 ]
 
 
 def _scenario_tree(root, files):
     for rel, content in files.items():
         p = os.path.join(root, rel)
+        if content is None:                 # a directory (path ends with '/')
+            os.makedirs(p, exist_ok=True)
+            continue
         os.makedirs(os.path.dirname(p), exist_ok=True)
         with open(p, "w") as fh:
             fh.write(content)
@@ -131,7 +144,7 @@ def bounded(tier, seed):
         finally:
             shutil.rmtree(base, ignore_errors=True)
     return {"evaluations": evals, "distinct_nontrivial": len(distinct), "violations": viol, "samples": samples,
-            "rule": "(also, on the scenarios and every 10th tree: `--list-files` through cli.main started inside the tree, in its parent (no repository) and in / gives the same listing; after the .gitignore files are replaced a NEW resolver in the same process agrees with git again) 16 hand-written scenarios (incl. comment / '#' / escape / leading-blank handling of ignore lines, negation-only nested files, rules repeated around a negation, backslash escapes) (ignored directories with later / nested negations, anchored and multi-segment patterns in "
+            "rule": "(also, on the scenarios and every 10th tree: `--list-files` through cli.main started inside the tree, in its parent (no repository) and in / gives the same listing; after the .gitignore files are replaced a NEW resolver in the same process agrees with git again) 20 hand-written scenarios (incl. comment / '#' / escape / leading-blank handling of ignore lines, negation-only nested files, rules repeated around a negation, backslash escapes) (ignored directories with later / nested negations, anchored and multi-segment patterns in "
                     "nested files, re-included directories) + seeded trees with .gitignore files (1-3 lines each from an 18-line pool) at any level: the .md files returned by a "
                     "traversal (no default excludes) equal the .md files of `git ls-files -co --exclude-standard`; the same for two overlapping traversal roots (tree and one sub-directory, both orders: each judged from its own root); with "
                     "respect_gitignore=False every .md file is returned; distinct = distinct git results",
